@@ -2,9 +2,11 @@
    Statements only; proofs in Proofs/Server*.v. *)
 From Coq Require Import List String NArith Bool.
 From FB Require Import Lib.Bytes Lib.Layout Gen.RustDispatch Gen.RustABI Model.Server Spec.KernelABI Spec.Requests
-  Proofs.ServerDispatch.
+  Spec.WfReq Proofs.ServerDispatch Proofs.ServerPerform Proofs.ServerReply Proofs.ServerDecide Proofs.ServerHandle
+  Proofs.ServerDecodeLib Proofs.ServerDecodeOps Proofs.ServerDecodeOps2 Proofs.ServerDecode.
 Import ListNotations.
 Local Open Scope string_scope.
+Local Open Scope list_scope.
 Local Open Scope N_scope.
 
 (* The dispatch `match` of handle_message, re-read from the source on every run: every arm calls
@@ -31,3 +33,78 @@ Print Assumptions C02_dispatch_complete.
 Print Assumptions C02_unknown_opcodes_enosys.
 Print Assumptions C02_model_dispatch_matches_source.
 Print Assumptions C02_arc_forwarding.
+
+(* ---------------------------------------------------------------------------------------------
+   Universal decode theorem.  For EVERY well-formed request [q] (Spec/WfReq.v: any of the 45
+   request opcodes, any header and field values that fit their kernel widths, any NUL-free names,
+   any payload / pair list consistent with its length field), every filesystem answer, every
+   id-remap offsets: the server, given the kernel layout of [q], makes the caller-id translation
+   call and then exactly the filesystem operation [expected_call q] with exactly the specified
+   arguments -- and nothing else. *)
+Theorem C02_decode_exact : forall cfg q fr cap du dg,
+  wf_req q = true -> cfg_remap cfg = RemapOk du dg -> env_ok cfg cap q = true ->
+  fst (fst (decide cfg (encode_req q) fr cap)) =
+    remap_call q ::
+    match expected_call q ((q_uid q + du) mod 2 ^ 32, (q_gid q + dg) mod 2 ^ 32, q_pid q) with
+    | Some c => [c] | None => [] end.
+Proof. exact decode_exact. Qed.
+
+(* [wf_req] admits every opcode the server dispatches except INIT (whose decoding is C12 / Spec/Init.v) *)
+Theorem C02_wf_ops_all_dispatched : wf_ops = map fst handlers.
+Proof. exact wf_ops_are_the_table. Qed.
+
+(* the same, per handler: for every opcode [k] in the dispatch table, its handler run on the body of
+   an encoded well-formed request makes exactly the expected call (all 45 table entries) *)
+Theorem C02_every_handler_exact : Forall (fun e => handler_exact (fst e) (snd e)) handlers.
+Proof. exact handlers_all_exact. Qed.
+
+(* C01 corollary: a well-formed request the client waits on (every opcode except FORGET,
+   BATCH_FORGET, INTERRUPT, NOTIFY_REPLY) is answered: the action is never NoReply ... *)
+Theorem C01_answer_required : forall cfg q fr cap du dg,
+  wf_req q = true -> cfg_remap cfg = RemapOk du dg -> env_ok cfg cap q = true ->
+  needs_answer (q_op q) = true ->
+  replies (snd (fst (decide cfg (encode_req q) fr cap))) = true.
+Proof. exact answer_required. Qed.
+
+(* ... a replying action that fits the buffer is exactly one write ... *)
+Theorem C01_reply_is_one_packet : forall cap u a,
+  replies a = true -> action_size a <= cap ->
+  exists p, o_packets (perform FuseDev cap u a) = [p].
+Proof. exact perform_one_packet. Qed.
+
+(* ... hence handle_message emits exactly one packet, a complete reply carrying the request's unique *)
+Theorem C01_answer_exactly_one_packet : forall cfg q fr cap du dg,
+  wf_req q = true -> cfg_remap cfg = RemapOk du dg -> env_ok cfg cap q = true ->
+  needs_answer (q_op q) = true -> cap < 2 ^ 32 -> fs_ok fr ->
+  action_size (snd (fst (decide cfg (encode_req q) fr cap))) <= cap ->
+  exists p, o_packets (h_outcome (handle cfg FuseDev cap (encode_req q) fr)) = [p]
+            /\ wellformed_reply (q_unique q) p.
+Proof. exact answer_one_wellformed_packet. Qed.
+
+(* non-vacuity: non-trivial requests (boundary values in header and fields, names, payload, pairs)
+   are well-formed, for five opcodes; and the theorem's conclusion on one of them, computed *)
+Example C02_wf_req_nonvacuous :
+  wf_req sample_lookup = true /\ wf_req sample_write = true /\ wf_req sample_rename2 = true /\
+  wf_req sample_readdirplus = true /\ wf_req sample_batch_forget = true /\
+  env_ok sample_cfg 8192 sample_readdirplus = true /\ env_ok sample_cfg 0 sample_write = true.
+Proof. vm_compute. repeat split; reflexivity. Qed.
+
+Example C02_decode_exact_instance :
+  fst (fst (decide sample_cfg (encode_req sample_write) FUnit 0)) =
+  [mk "id_remap" (1000, 4294967295, 4242) [AN 4660];
+   mk "write" (0, 0, 4242)
+      [AN 4660; AN 18446744073709551615; AB [104; 101; 108; 108; 111]; AN 5; AN 4096;
+       AO (Some 81985529216486895); ABool true; AN 32769; AN 3]].
+Proof. vm_compute. reflexivity. Qed.
+
+Example C01_answer_nonvacuous :
+  needs_answer (q_op sample_rename2) = true /\ fs_ok (FErr (Os 13)) /\
+  action_size (snd (fst (decide sample_cfg (encode_req sample_rename2) (FErr (Os 13)) 4096))) <= 4096.
+Proof. vm_compute. repeat split; discriminate. Qed.
+
+Print Assumptions C02_decode_exact.
+Print Assumptions C02_wf_ops_all_dispatched.
+Print Assumptions C02_every_handler_exact.
+Print Assumptions C01_answer_required.
+Print Assumptions C01_reply_is_one_packet.
+Print Assumptions C01_answer_exactly_one_packet.
